@@ -66,7 +66,7 @@ prop("C07", [RT.rule_SL, LK.rule_AT2, RO.rule_EF2, RO.rule_EF3, SQ.rule_SQ3, SQ.
      "refund adds slots(stored blob) and is persisted in the deletion's transaction; one critical section per balance update; only completion refunds; one divisor (2048) at all charge/refund sites; "
      "the balance reported is the one computed and persisted; a charge is always followed by the store (no refusal after the balance moved) (CBS); the reads the charge and the refund are computed from range over every stored appointment of the uuid, triggered or not (SQ4 query-scope table); a refused registration writes nothing to the live record, so no slots are minted by a request that was turned down (SB all-or-nothing). NOT decided: the conservation law over histories, the float slot formula per blob length.",
      technique="comparison/arithmetic shape rules over origin terms + lock spans")
-prop("C08", [RT.rule_RC, WT.rule_WT3, SQ.rule_SQ2, LK.rule_AT2, ED.rule_ED, DX.rule_DX, RO.rule_OR2_watcher, LK.rule_AT1],
+prop("C08", [RT.rule_RC, WT.rule_WT3, SQ.rule_SQ2, LK.rule_AT2, ED.rule_ED, DX.rule_DX, RO.rule_OR2_watcher, LK.rule_AT1, SQ.rule_SQ6],
      STATIC + "Decided: an appointment receipt is returned only on paths that stored the appointment / handed it to the responder, is built from the same ExtendedAppointment (request signature, "
      "height at acceptance) and is signed with the tower key; registration receipts are built from the persisted record; gRPC responses map like-named fields (RC); signed layouts cover every field "
      "once with at most one variable-length component, integers whole through to_be_bytes of their own width (WT3); updates rewrite all mutable columns, inserts/updates bind parameters in column order (SQ2); every read-modify-write of a user record is one critical section, so the record a registration receipt was built from is not overwritten by a concurrent stale copy (AT2); a late-triggered appointment is given up only when the Responder answered Rejected, so a receipt never stands for an appointment dropped without cause (OR2w); the cache look-up that finds the dispute confirmed and the store / hand-over that acts on it are one critical section of the locator cache, so a reorg or a re-submission cannot slip between 'confirmed' and 'dropped because the node refused' (AT1). NOT decided: signature validity, byte-for-byte read-back.",
@@ -80,12 +80,12 @@ prop("C10", [LK.rule_lock_classes, LK.rule_AT1, LK.rule_AT2, LK.rule_AT3, LK.rul
      "AT2 (each balance read-modify-write is one critical section), AT3 (charge and store atomic against an identical concurrent submission), AT4 (a disconnection purges the Responder's index before collecting the trackers confirmed in that block, so a concurrent trigger is either collected or misses the block), AT5 (the purge of outdated users — selection, removal from memory, deletion of the rows — is one critical section of the users lock, so a registration is handled entirely before or entirely after it), LK0/LK1 (no two operations can wait on each other). "
      "NOT decided: equivalence of final states to some sequential order (needs execution).",
      technique="guard-liveness dataflow on MIR (lock sets), lock-order graph with thread-root reachability")
-prop("C11", [LK.rule_lock_classes, LK.rule_LK0, LK.rule_LK1, LK.rule_LK2, PN.rule_PN_tower, IX.rule_IXt, OUT.rule_OUT, LK.rule_AT5, RO.rule_OR2_gatekeeper],
+prop("C11", [LK.rule_lock_classes, LK.rule_LK0, LK.rule_LK1, LK.rule_LK2, PN.rule_PN_tower, IX.rule_IXt, OUT.rule_OUT, LK.rule_AT5, RO.rule_OR2_gatekeeper, RO.rule_OR2_responder],
      STATIC + "Decided: no re-entrant acquisition (LK0), no lock-order cycle between concurrently runnable threads (LK1), condvar wait discipline (LK2), and every unwrap/expect reachable from an API or chain "
      "thread root classified: request-derived ones validated by the HTTP layer, replayed inserts guarded by an existence test in the same critical section, look-ups justified in the same critical section (PNt, "
      "each labelled with the locks held, i.e. what a panic would poison); index/slice/positional operations and explicit panic!/unreachable! on those paths are discharged by constants, length guards on every path or a closed variant set of the callee (IXt); every successful poll raises the reachability flag and notifies, whoever lowered it (OUT: the only waker of threads parked in the Carrier). NOT decided: absence of panics in general (sqlite I/O), liveness after arbitrary histories.",
      technique="lock-order graph + condvar wake-up reachability + classified-unwrap table with same-section discharge")
-prop("C12", [OUT.rule_OUT, LK.rule_LK2],
+prop("C12", [OUT.rule_OUT, LK.rule_LK2, IX.rule_IXt],
      STATIC + "Decided: both Carrier RPC wrappers wait for reachability first; a transport error flags the outage and re-issues the same call, never yields a verdict; the monitor sets the flag true + notify_all "
      "on every Ok poll and false on transient errors; every public handler enters the Watcher only after the 503 gate (OUT); the waker can reach its notify (LK2). NOT decided: that retries eventually succeed; timing.",
      technique="variant-fact dataflow on error arms + call-graph reachability of the only notifier")
@@ -115,7 +115,7 @@ prop("C17", [CY.rule_CY, RO.rule_EF3],
      "functions; verify = (recover_pk(msg, sig) == pk) with every error mapped to false (CY); locator = first 16 bytes of the txid (EF3). NOT decided: that the primitives are inverse / reject tampering for all inputs "
      "(values computed by ChaCha20-Poly1305, SHA-256, ECDSA), nor anything about the primitives' own code.",
      technique="sibling-agreement check on interprocedural origin terms (canonicalised operand terms of the two AEAD call sites) + return-term shape")
-prop("C18", [PL.rule_PL7, SQ.rule_SQ1, SQ.rule_SQ3, PL.rule_PL3, SQ.rule_SQ5_client, ED.rule_ED, DX.rule_DX, SQ.rule_SQ2],
+prop("C18", [PL.rule_PL7, SQ.rule_SQ1, SQ.rule_SQ3, PL.rule_PL3, SQ.rule_SQ5_client, ED.rule_ED, DX.rule_DX, SQ.rule_SQ2, SQ.rule_SQ6],
      STATIC + "Decided: every mutator changes memory and disk together and only mutators do; status reconstruction agrees between the two loaders; client schema cascades from towers (and appointments) with foreign keys on; "
      "multi-statement writes are transactions; add-before-delete. NOT decided: the reference-counting rule of delete_pending_appointment over operation sequences; memory == disk after histories.",
      technique="who-may-write/call tables + must-follow analysis + SQL schema tables")
